@@ -25,6 +25,20 @@ impl Right {
     }
 }
 
+/// Reads a length-prefixed byte string, refusing a length larger than what
+/// remains to be read (the length is not trusted to allocate).
+pub(crate) fn read_bytes(de: &mut Deserializer) -> Result<Vec<u8>, Error> {
+    let mut peek = Deserializer::new(de.value());
+    let len = peek.read_leb128_u64()?;
+    if len > peek.value().len() as u64 {
+        return Err(Error::ConversionFailed(format!(
+            "announced length {len} exceeds the {} remaining bytes",
+            peek.value().len()
+        )));
+    }
+    de.read_vec().map_err(Error::from)
+}
+
 impl Deref for Right {
     type Target = [u8];
 
@@ -57,7 +71,7 @@ impl Serializable for Right {
     }
 
     fn read(de: &mut Deserializer) -> Result<Self, Self::Error> {
-        let bytes = de.read_vec()?;
+        let bytes = read_bytes(de)?;
         Ok(Self(bytes))
     }
 }
